@@ -3,6 +3,9 @@ package sim
 import (
 	"context"
 	"fmt"
+
+	"github.com/gogo/protobuf/proto"
+	configapi "github.com/onosproject/onos-api/go/onos/config/v2"
 	topoapi "github.com/onosproject/onos-api/go/onos/topo"
 	"regexp"
 	"sort"
@@ -49,9 +52,8 @@ func genC13(rt *rapid.T) C13Case {
 	for i := 0; i < nm; i++ {
 		pool := []string{"op-target-unknown", "op-target-empty", "op-target-noplugin", "prefix-target-unknown", "path-target-differs", "update-interior", "update-nonmodel",
 			"key-mismatch", "key-name-wrong", "keys-dropped", "key-badchars", "delete-key-badchars", "override-unknown-target", "override-known-target", "target-removed", "ext-malformed", "no-ops", "more-ops", "second-target", "delete-nonmodel", "delete-textual-stub", "json-root", "json-at-path"}
-		if c.Limit > 0 {
-			pool = pool[:len(pool)-2] // how many operations a JSON value counts for is not documented
-		}
+		// with a size limit a JSON-valued update counts with the values it expands to (the refusal's own text:
+		// "number of updates and deletes in a gNMI Set must not exceed ...")
 		m := pool[rapid.IntRange(0, len(pool)-1).Draw(rt, "mut")]
 		c.Muts = append(c.Muts, m)
 		applyC13Mutation(rt, &c.Req, m)
@@ -172,6 +174,19 @@ func applyC13Mutation(rt *rapid.T, s *SetSpec, m string) {
 	case "ext-malformed":
 		id := []uint32{111, 112}[rapid.IntRange(0, 1).Draw(rt, "extid")]
 		s.Ext = append(s.Ext, ExtSpec{ID: id, Msg: []byte{0xff, 0xff, 0xff}})
+		switch rapid.IntRange(0, 3).Draw(rt, "extafter") {
+		case 1:
+			// a well-formed extension of the OTHER kind follows the malformed one
+			if id == 111 {
+				s.Ext = append(s.Ext, OverrideExt("t1", "m1", "1.0.0"))
+			} else {
+				b, _ := proto.Marshal(&configapi.TransactionStrategy{Synchronicity: configapi.TransactionStrategy_ASYNCHRONOUS})
+				s.Ext = append(s.Ext, ExtSpec{ID: uint32(configapi.TransactionStrategyExtensionID), Msg: b})
+			}
+		case 2:
+			// ... or an extension nobody knows
+			s.Ext = append(s.Ext, ExtSpec{ID: 4711, Msg: []byte{1}})
+		}
 	case "no-ops":
 		s.Ops = nil
 	case "more-ops":
@@ -240,7 +255,19 @@ var keyAllowed = regexp.MustCompile(`^[a-zA-Z0-9*._-]+$`)
 // independently of the code: it returns why the request must be refused before
 // being logged ("" = must be accepted) and, for accepted requests, the
 // resolved (target, absolute path, kind) set.
+// c13JSONLeaves: the leaves (relative to the update's path) of the two JSON documents the mutations use.
+func c13JSONLeaves(doc string) []string {
+	switch doc {
+	case `{"a":{"c":{"d":"jv"}},"mtu":9}`:
+		return []string{"/a/c/d", "/mtu"}
+	case `{"d":"jv"}`:
+		return []string{"/d"}
+	}
+	return nil
+}
+
 func expectC13(s SetSpec, limit int, known map[string]bool, noPlugin map[string]bool) (refuse string, resolved []model.Op, special []string) {
+	var jsonResolved []model.Op
 	if len(s.Ops) == 0 {
 		return "no operations", nil, nil
 	}
@@ -288,6 +315,10 @@ func expectC13(s SetSpec, limit int, known map[string]bool, noPlugin map[string]
 				} else {
 					special = append(special, "json-at-path")
 				}
+				// the values the document expands to count towards the size limit ("number of updates and deletes")
+				for _, rel := range c13JSONLeaves(o.Val.S) {
+					jsonResolved = append(jsonResolved, model.Op{Kind: "update", Target: o.Target, Path: model.Join(o.Path, model.Parse(rel))})
+				}
 				continue
 			}
 			ld, ok := model.Lookup(model.M1, o.Path)
@@ -303,7 +334,7 @@ func expectC13(s SetSpec, limit int, known map[string]bool, noPlugin map[string]
 	if limit > 0 {
 		perTarget := map[string]map[string]bool{}
 		dels := map[string]int{}
-		for _, o := range resolved {
+		for _, o := range append(append([]model.Op{}, resolved...), jsonResolved...) {
 			if perTarget[o.Target] == nil {
 				perTarget[o.Target] = map[string]bool{}
 			}
